@@ -18,7 +18,13 @@ attributes, prolog, empty-element forms) for one PDU per string type, with the
 expected value computed in Python; extensible SEQUENCEs decoded by OLDER versions
 of the type (unknown additions) in BER / OER / XER; the extracted reader of XER
 text bodies (entref_step) and OER open-type skipper (skip_step, skips_step)
-against the C: first call on every prefix, value under feeding."""
+against the C: first call on every prefix, value under feeding.
+Third layer (lib/c05w_util.py, coq/Rt/ResumeT.v): module MT5 of members / alternatives /
+elements that tag a REFERENCE in place (tag_mode -1 / +1 in the member table, read back from
+the running code); every definite/indefinite combination per level of each multi-tag chain,
+long forms per level, invalid renderings (verdict must agree); ber_check_tags and
+ber_decode_primitive themselves with tag_mode x last_tag_form against the extracted
+chainm_step / primm_step and against their own one-shot run."""
 import sys, os, re
 sys.path.insert(0, os.path.join(os.path.dirname(os.path.abspath(__file__)), "..", "lib"))
 from vlib import *
@@ -831,6 +837,7 @@ def main(tier):
           "extraction: ExtrOcamlBasic only; OCaml 4.13.1",
           "harness/moddrv_c05.inc (feeding discipline, sweep of split points) and harness/moddrv.c `chunk` (second implementation of the discipline); lib/c05_util.py (BER variants derived along the type, classifier predicates)",
           "lib/modgen.py (generator, independent X.680 tagging); XER text of the generated corpus and the wide module's values come from the C itself (xer_encode, asn_random_fill)",
+          "lib/c05w_util.py (module MT5, expected member tag modes, per-level BER renderings, header chains for ber_check_tags)",
           "lib/c05x_util.py (values, DER and XER documents of the string module MS5, written independently of the C); lib/extgen.py, lib/ext_layer.py model batches and coq/Rt/Ext.v (expected value of an older reader of an extensible type)",
           "gcc + ASan/UBSan; every window is an exact-size heap block"]
     return run.finish("proof", (nthm, ndis), trusted_base=tb,
@@ -838,7 +845,7 @@ def main(tier):
                       extra_cov={"theorems": names, "modules": len(mods) + 2, "encodings": nenc,
                                  "rule": "one case = one driver command: a sweep (one encoding: one-shot + every/sampled 2-chunk split + every such proper prefix), one chunk schedule through one implementation of the feeding discipline, or one reference-decoder line; distinct command lines",
                                  "traces_validated_against_impl": run.cov["evaluations"]},
-                      assumptions=["machines proved coherent: primitive BER decoder, tag-chain check (any number of tags), XER text-body reader (entity references), OER open-type skipper and its phase-4 loop; SEQUENCE/SET OF/CHOICE bodies, constructed-string stack, the XML tokenizer and the other OER and XER decoders are covered by the tie only (partial)",
+                      assumptions=["machines proved coherent: primitive BER decoder (also under a member's tag_mode), tag-chain check (any number of tags, every tag_mode and last_tag_form), XER text-body reader (entity references), OER open-type skipper and its phase-4 loop; SEQUENCE/SET OF/CHOICE bodies, constructed-string stack, the XML tokenizer and the other OER and XER decoders are covered by the tie only (partial)",
                                    "split points are exhaustive for encodings up to the tier's bound (quick 400, thorough 3000 octets), sampled beyond"])
 
 
